@@ -273,7 +273,7 @@ func (v *verifRepl) step(msg any, withSender bool) (resp any, outgoing []any) {
 	case resp = <-rctx.response:
 	default:
 	}
-	out, err := Ask(context.Background(), v.cap, &c41Flush{}, 5*time.Second)
+	out, err := Ask(context.Background(), v.cap, &c41Flush{}, 120*time.Second)
 	if err != nil {
 		v.t.Fatalf("flush: %v", err)
 	}
